@@ -49,7 +49,7 @@ func mapFat(variant int) []byte {
 		{Name: "Fox", Schema: spec.Obj(spec.P("kind", spec.T("string")), spec.P("d", spec.T("string"))).Req("kind")},
 		{Name: "Pet", Schema: &spec.Schema{OneOf: []*spec.Schema{spec.RefTo("Cat"), spec.RefTo("Dog"), spec.RefTo("Emu"), spec.RefTo("Fox")},
 			Disc: &spec.Disc{Prop: "kind", Mapping: map[string]string{"cat": "Cat", "dog": "Dog", "emu": "Emu", "fox": "Fox", "kitten": "Cat", "puppy": "Dog"}}}},
-		{Name: "Nested", Schema: spec.Obj(spec.P("inner", spec.Obj(spec.P("x", spec.T("string")), spec.P("y", spec.Obj(spec.P("z", spec.T("string")))))), spec.P("list", spec.Arr(spec.Obj(spec.P("q", spec.T("string")))))) },
+		{Name: "Nested", Schema: spec.Obj(spec.P("inner", spec.Obj(spec.P("x", spec.T("string")), spec.P("y", spec.Obj(spec.P("z", spec.T("string")))))), spec.P("list", spec.Arr(spec.Obj(spec.P("q", spec.T("string"))))))},
 		{Name: "Nested2", Schema: spec.Obj(spec.P("inner", spec.Obj(spec.P("x", spec.T("string")))), spec.P("other", spec.Obj(spec.P("w", spec.TF("integer", "int64")))))},
 	}
 	s.Comp.Params = []spec.NamedParam{
@@ -70,7 +70,7 @@ func mapFat(variant int) []byte {
 			{Status: "200", Desc: "r", Schema: spec.RefTo("Zebra"), Headers: []*spec.Header{{Name: "X-Z", Schema: spec.T("string")}, {Name: "X-A", Ref: "HA"}, {Name: "X-M", Ref: "HM"}, {Name: "X-B", Schema: spec.T("string")}}},
 			{Status: "201", Ref: "RA"}, {Status: "404", Ref: "RM"}, {Status: "default", Desc: "d", Schema: spec.RefTo("Account")}}
 	}
-	for i, p := range []string{"/zebra/{id}", "/alpha", "/mango/{id}/sub", "/beta/x"} {
+	for i, p := range []string{"/zebra/{id}", "/alpha", "/mango/{id}/sub", "/beta/x", "/alpha/", "/beta/x/", "/Alpha"} {
 		pi := &spec.PathItem{Template: p}
 		if strings.Contains(p, "{id}") {
 			pi.Params = []*spec.Param{{Name: "id", In: "path", Required: true, Schema: spec.T("string")}}
@@ -79,6 +79,9 @@ func mapFat(variant int) []byte {
 			op := &spec.Op{Method: m, Responses: resp(), Params: []*spec.Param{{Ref: "PZ"}, {Ref: "PA"}, {Ref: "PH"}, {Name: "inline", In: "query", Schema: spec.T("string")}}}
 			if m == "POST" || m == "PUT" {
 				op.Body = &spec.Body{Ref: []string{"BZ", "BA", "BM", "BB"}[(i+j)%4]}
+			}
+			if i >= 4 && j > 0 {
+				continue // the trailing-slash twins carry one operation each
 			}
 			if variant == 1 && j == 0 {
 				// a requirement naming several schemes, and several alternatives
